@@ -442,6 +442,7 @@ static void fixed(void) {
 
 int main(int argc, char** argv) {
   probes_init();
+  pe_prop = "C03";
   big_cases = getenv("VH_BIG") != NULL;
   return vh_run(argc, argv, "tree", fixed, case_random);
 }
